@@ -8,7 +8,8 @@
    Sticky = FALSE: the code as pinned at 819d462b, where the counter has wrapped to 0 and the next call continues
                    silently with blocks CMAX-1, 0, 1, ... (defect F7). *)
 EXTENDS Integers, Sequences, TLC, Json
-CONSTANTS CMAX, KS, MaxCalls, Sticky, EmitHist
+CONSTANTS CMAX, KS, MaxCalls, Sticky, EmitHist,
+          WLO       \* values of the low counter word h[12]; CMAX = WLO * (values of h[13]); WLO = CMAX: a single word (12- and 24-byte nonces)
 VARIABLES ctr,      \* state->h[12] (next block to generate)
           used,     \* state->usedKeyStream
           bufBlock, \* which block's key stream is in state->keyStream (-1: none)
@@ -19,9 +20,12 @@ VARIABLES ctr,      \* state->h[12] (next block to generate)
 vars == <<ctr, used, bufBlock, exhausted, pos, out, exc, calls, hist>>
 Init == ctr = 0 /\ used = KS /\ bufBlock = -1 /\ exhausted = FALSE /\ pos = 0 /\ out = <<>> /\ exc = "none" /\ calls = 0 /\ hist = <<>>
 \* chacha20_core as a function of the counter: returns [blk, ctr, used, err]
-Core(c) == IF Sticky /\ (c + 1) % CMAX = 0
+\* the counter as chacha20_core advances it with an 8-byte nonce: ++h[12], and ++h[13] when h[12] wrapped to zero
+WordInc(c) == LET lo == c % WLO  hi == c \div WLO  lo2 == (lo + 1) % WLO  hi2 == IF lo2 = 0 THEN (hi + 1) % (CMAX \div WLO) ELSE hi IN hi2 * WLO + lo2
+ASSUME CMAX % WLO = 0
+Core(c) == IF Sticky /\ WordInc(c) = 0
            THEN [blk |-> -1, ctr |-> c, used |-> KS, err |-> TRUE]          \* repaired: counter not advanced, buffer marked consumed
-           ELSE [blk |-> c, ctr |-> (c + 1) % CMAX, used |-> 0, err |-> ((c + 1) % CMAX = 0)]
+           ELSE [blk |-> c, ctr |-> WordInc(c), used |-> 0, err |-> (WordInc(c) = 0)]
 RECURSIVE Enc(_,_,_,_,_,_)
 \* the while loop of chacha20_encrypt; acc = bytes produced so far in this call
 Enc(len, c, u, b, p, acc) ==
@@ -48,8 +52,8 @@ Seek(blk, off) ==
   /\ out' = <<>>
 LenClasses == {"zero", "one", "ks-1", "ks", "ks+1", "2ks+1"}
 LenOf(c) == CASE c = "zero" -> 0 [] c = "one" -> 1 [] c = "ks-1" -> KS - 1 [] c = "ks" -> KS [] c = "ks+1" -> KS + 1 [] c = "2ks+1" -> 2 * KS + 1
-BlkClasses == {"b0", "b1", "last-2", "last-1", "last", "beyond", "far"}
-BlkOf(c) == CASE c = "b0" -> 0 [] c = "b1" -> 1 [] c = "last-2" -> CMAX - 3 [] c = "last-1" -> CMAX - 2 [] c = "last" -> CMAX - 1 [] c = "beyond" -> CMAX [] c = "far" -> 64 * CMAX
+BlkClasses == {"b0", "b1", "wordedge-1", "wordedge", "last-2", "last-1", "last", "beyond", "far"}
+BlkOf(c) == CASE c = "b0" -> 0 [] c = "b1" -> 1 [] c = "wordedge-1" -> WLO - 2 [] c = "wordedge" -> WLO - 1 [] c = "last-2" -> CMAX - 3 [] c = "last-1" -> CMAX - 2 [] c = "last" -> CMAX - 1 [] c = "beyond" -> CMAX [] c = "far" -> 64 * CMAX
 OffClasses == {"o0", "o1", "oks-1"}
 OffOf(c) == CASE c = "o0" -> 0 [] c = "o1" -> 1 [] c = "oks-1" -> KS - 1
 Next == /\ calls < MaxCalls /\ calls' = calls + 1
@@ -57,6 +61,8 @@ Next == /\ calls < MaxCalls /\ calls' = calls + 1
            \/ \E b \in BlkClasses, f \in OffClasses : Seek(BlkOf(b), OffOf(f)) /\ hist' = IF EmitHist THEN Append(hist, [op |-> "seek", blk |-> b, off |-> f]) ELSE hist
 Spec == Init /\ [][Next]_vars
 -----------------------------------------------------------------------------
+\* the word-wise increment is +1 modulo the counter space (the carry from h[12] into h[13] is not lost)
+CarryIsIncrement == \A c \in 0..(CMAX - 1) : WordInc(c) = (c + 1) % CMAX
 \* every byte handed to the caller is the key stream of its logical position: no wrap-around, no block handed out twice
 PositionCorrect == \A i \in 1..Len(out) : out[i][2] = out[i][1] \div KS /\ out[i][3] = out[i][1] % KS
 WithinLimit == \A i \in 1..Len(out) : out[i][1] < CMAX * KS
